@@ -1,9 +1,186 @@
 import NmVerif.Proto
+import NmVerif.Static
+/-
+  Driver for C11: `c11 rpn=<tok>;<tok>;… shapes=<leaf shape>;… rargs=<run-time argument>;…`
+  interprets the program (reverse Polish, tokens written by harness/gen_c11.py) twice at once:
+  abstractly with the transfer functions of `NmVerif.Static` (→ predicted static knowledge of the view TYPE) and
+  concretely with the reference shape functions (→ run-time shape of the instance).
+  Answer: `M sk=… fs=… fd=… fz=… bd=… bz=… shape=…`  |  `M unsupported:<why>`
+-/
 namespace NmVerif.Driver.C11
-open NmVerif NmVerif.Proto
+open NmVerif NmVerif.Proto NmVerif.Static
 
-def handle : Handler := fun op _args =>
+def fmtOptNats : Option (List Nat) → String
+  | some l => fmtNats l
+  | none => "-"
+def fmtOptNat : Option Nat → String
+  | some n => toString n
+  | none => "-"
+
+def fmtShapeK : ShapeK → String
+  | .const l => "c:" ++ fmtNats l
+  | .clipped b => "l:" ++ fmtNats b
+  | .fixedDim k => s!"f:{k}"
+  | .boundedDim k => s!"b:{k}"
+  | .dyn => "d"
+
+def fmtInfo (i : SInfo) : String :=
+  s!"sk={fmtShapeK i.shape} fs={fmtOptNats i.fixedShape} fd={fmtOptNat i.fixedDim} fz={fmtOptNat i.fixedSize} bd={fmtOptNat i.boundedDim} bz={fmtOptNat i.boundedSize}"
+
+structure St where
+  stack : List (SInfo × Shape)
+  shapes : List (List Nat)
+  rargs : List (List Int)
+
+abbrev M := Except String
+
+def popArg (st : St) : M (List Int × St) :=
+  match st.rargs with
+  | [] => .error "missing-rarg"
+  | r :: rs => .ok (r, { st with rargs := rs })
+
+def toNats (l : List Int) : M (List Nat) :=
+  if l.all (· ≥ 0) then .ok (l.map Int.toNat) else .error "negative-arg"
+
+def nats? (s : String) : M (List Nat) :=
+  match parseNats s with
+  | some l => .ok l
+  | none => .error s!"bad-list:{s}"
+
+def nat? (s : String) : M Nat :=
+  match s.toNat? with
+  | some n => .ok n
+  | none => .error s!"bad-nat:{s}"
+
+def need {α} (o : Option α) (why : String) : M α :=
+  match o with
+  | some x => .ok x
+  | none => .error why
+
+def pop1 (st : St) : M ((SInfo × Shape) × St) :=
+  match st.stack with
+  | x :: rest => .ok (x, { st with stack := rest })
+  | [] => .error "stack-underflow"
+
+/-- index-array argument token fields → (kind, run-time value) -/
+def arrArg (fields : List String) (st : St) : M (ArrK × List Int × St) :=
+  match fields with
+  | "ct" :: v :: _ => do let l ← nats? v; pure (.ct l, l.map Int.ofNat, st)
+  | "cl" :: m :: v :: _ => do let mx ← nats? m; let l ← nats? v; pure (.cl mx, l.map Int.ofNat, st)
+  | "rt" :: n :: _ => do let k ← nat? n; let (r, st') ← popArg st; pure (.rt k, r, st')
+  | "rtv" :: _ => do let (r, st') ← popArg st; pure (.rtv, r, st')
+  | _ => .error "bad-array-arg"
+
+def axisArg (fields : List String) (st : St) : M (AxisK × Option (List Nat) × St) :=
+  match fields with
+  | "none" :: _ => pure (.none, none, st)
+  | "cts" :: a :: _ => do let x ← nat? a; pure (.cts x, some [x], st)
+  | "ctt" :: a :: _ => do let l ← nats? a; pure (.ctt l, some l, st)
+  | "rts" :: _ => do let (r, st') ← popArg st; let l ← toNats r; pure (.rts, some l, st')
+  | "rt" :: n :: _ => do let k ← nat? n; let (r, st') ← popArg st; let l ← toNats r; pure (.rt k, some l, st')
+  | _ => .error "bad-axis-arg"
+
+def step (st : St) (tok : String) : M St := do
+  let fields := tok.splitOn "."
+  match fields with
+  | "L" :: kind :: p :: _ =>
+    let P ← nats? p
+    match st.shapes with
+    | [] => .error "missing-shape"
+    | s :: ss =>
+      let i ← need (leafInfo kind P) "unknown-leaf-kind"
+      pure { st with stack := (i, s) :: st.stack, shapes := ss }
+  | "transpose" :: args =>
+    let ((i, s), st) ← pop1 st
+    match args with
+    | "none" :: _ =>
+      let o ← need (transferTranspose none i) "transfer"
+      let t ← need (refTranspose none s) "ref-shape"
+      pure { st with stack := (o, t) :: st.stack }
+    | _ =>
+      let (k, v, st) ← arrArg args st
+      let ax ← toNats v
+      let o ← need (transferTranspose (some k) i) "transfer"
+      let t ← need (refTranspose (some ax) s) "ref-shape"
+      pure { st with stack := (o, t) :: st.stack }
+  | "reshape" :: args =>
+    let ((i, s), st) ← pop1 st
+    let (k, v, st) ← arrArg args st
+    let o ← need (transferReshape k i) "transfer"
+    let t ← need (refReshape v s) "ref-shape"
+    pure { st with stack := (o, t) :: st.stack }
+  | "flatten" :: _ =>
+    let ((i, s), st) ← pop1 st
+    let o ← need (transferFlatten i) "transfer"
+    pure { st with stack := (o, refFlatten s) :: st.stack }
+  | "broadcast_to" :: args =>
+    let ((i, s), st) ← pop1 st
+    let (k, v, st) ← arrArg args st
+    let tv ← toNats v
+    let o ← need (transferBroadcastTo k i) "transfer"
+    let t ← need (refBroadcastTo tv s) "ref-shape"
+    pure { st with stack := (o, t) :: st.stack }
+  | "tile" :: args =>
+    let ((i, s), st) ← pop1 st
+    let (k, v, st) ← arrArg args st
+    let r ← toNats v
+    let o ← need (transferTile k i) "transfer"
+    pure { st with stack := (o, refTile r s) :: st.stack }
+  | "expand_dims" :: args =>
+    let ((i, s), st) ← pop1 st
+    let (k, v, st) ← axisArg args st
+    let axes ← need v "axis"
+    let o ← need (transferExpandDims k i) "transfer"
+    let t ← need (refExpandDims axes s) "ref-shape"
+    pure { st with stack := (o, t) :: st.stack }
+  | "squeeze" :: _ =>
+    let ((i, s), st) ← pop1 st
+    let o ← need (transferSqueeze i) "transfer"
+    pure { st with stack := (o, refSqueeze s) :: st.stack }
+  | "sum" :: args =>
+    let ((i, s), st) ← pop1 st
+    let (k, v, st) ← axisArg args st
+    let axes ← need v "axis"
+    let kd := args.contains "kd1"
+    let o ← need (transferReduce k kd i) "transfer"
+    let t ← need (refReduce axes kd s) "ref-shape"
+    pure { st with stack := (o, t) :: st.stack }
+  | "negative" :: _ =>
+    let ((i, s), st) ← pop1 st
+    let o ← need (transferUfunc1 i) "transfer"
+    pure { st with stack := (o, s) :: st.stack }
+  | "add" :: _ =>
+    let ((j, sb), st) ← pop1 st
+    let ((i, sa), st) ← pop1 st
+    let o ← need (transferUfunc2 i j) "transfer"
+    let t ← need (refBroadcast sa sb) "ref-shape"
+    pure { st with stack := (o, t) :: st.stack }
+  | "concatenate" :: args =>
+    let ((j, sb), st) ← pop1 st
+    let ((i, sa), st) ← pop1 st
+    let (k, v, st) ← axisArg args st
+    let axis : Option Nat := match v with | some (x :: _) => some x | _ => none
+    let o ← need (transferConcat k i j) "transfer"
+    let t ← need (refConcat axis sa sb) "ref-shape"
+    pure { st with stack := (o, t) :: st.stack }
+  | _ => .error s!"unknown-token:{tok}"
+
+def run (rpn : String) (shapes : List (List Nat)) (rargs : List (List Int)) : String :=
+  let toks := (rpn.splitOn ";").filter (· ≠ "")
+  match toks.foldlM step { stack := [], shapes := shapes, rargs := rargs } with
+  | .error e => s!"M unsupported:{e}"
+  | .ok st =>
+    match st.stack with
+    | [(i, s)] => s!"M {fmtInfo i} shape={fmtNats s}"
+    | _ => "M unsupported:stack"
+
+def handle : Handler := fun op a =>
   match op with
+  | "c11" => orBad do
+      let rpn ← a.get? "rpn"
+      let shapes ← a.natLists "shapes"
+      let rargs := (a.intLists "rargs").getD []
+      pure (run rpn shapes rargs)
   | _ => none
 
 end NmVerif.Driver.C11
